@@ -24,6 +24,12 @@ type verifC07GW struct {
 	gateway, service, gwKind, svcKind string
 	port                              int
 	fromWildcard                      bool
+	attrs                             string // the per-link settings copied from the gateway's config entry
+}
+
+// verifC07GWAttrs renders the settings of one gateway link that the config entry defines and the row repeats.
+func verifC07GWAttrs(protocol string, hosts []string, caFile, certFile, keyFile, sni string) string {
+	return fmt.Sprintf("protocol=%q hosts=%q ca=%q cert=%q key=%q sni=%q", protocol, hosts, caFile, certFile, keyFile, sni)
 }
 
 func (g verifC07GW) id() string { return fmt.Sprintf("%s|%s|%d", g.gateway, g.service, g.port) }
@@ -49,6 +55,7 @@ type verifC07GWEntry struct {
 	name     string
 	explicit map[string]bool // "service|port"
 	wild     map[int]bool    // ports carrying the wildcard
+	attrs    map[string]string // "service|port" (service "*" for the wildcard) -> verifC07GWAttrs of the entry
 }
 
 type verifC07View struct {
@@ -153,9 +160,10 @@ func verifC07Snapshot(s *state.Store) *verifC07View {
 		v.cfgNames[e.GetKind()+"|"+e.GetName()] = true
 		switch c := e.(type) {
 		case *structs.IngressGatewayConfigEntry:
-			ge := &verifC07GWEntry{kind: c.Kind, gwKind: string(structs.ServiceKindIngressGateway), name: c.Name, explicit: map[string]bool{}, wild: map[int]bool{}}
+			ge := &verifC07GWEntry{kind: c.Kind, gwKind: string(structs.ServiceKindIngressGateway), name: c.Name, explicit: map[string]bool{}, wild: map[int]bool{}, attrs: map[string]string{}}
 			for _, l := range c.Listeners {
 				for _, svc := range l.Services {
+					ge.attrs[fmt.Sprintf("%s|%d", svc.Name, l.Port)] = verifC07GWAttrs(l.Protocol, svc.Hosts, "", "", "", "")
 					if svc.Name == structs.WildcardSpecifier {
 						ge.wild[l.Port] = true
 					} else {
@@ -165,8 +173,9 @@ func verifC07Snapshot(s *state.Store) *verifC07View {
 			}
 			v.gwEntries[ge.gwKind+"|"+ge.name] = ge
 		case *structs.TerminatingGatewayConfigEntry:
-			ge := &verifC07GWEntry{kind: c.Kind, gwKind: string(structs.ServiceKindTerminatingGateway), name: c.Name, explicit: map[string]bool{}, wild: map[int]bool{}}
+			ge := &verifC07GWEntry{kind: c.Kind, gwKind: string(structs.ServiceKindTerminatingGateway), name: c.Name, explicit: map[string]bool{}, wild: map[int]bool{}, attrs: map[string]string{}}
 			for _, svc := range c.Services {
+				ge.attrs[svc.Name+"|0"] = verifC07GWAttrs("", nil, svc.CAFile, svc.CertFile, svc.KeyFile, svc.SNI)
 				if svc.Name == structs.WildcardSpecifier {
 					ge.wild[0] = true
 				} else {
@@ -200,6 +209,13 @@ func verifC07Snapshot(s *state.Store) *verifC07View {
 		fw, _ := r["FromWildcard"].(bool)
 		g := verifC07GW{gateway: verifC07Str(r, "Gateway", "Name"), service: verifC07Str(r, "Service", "Name"), gwKind: verifC07Str(r, "GatewayKind"),
 			svcKind: verifC07Str(r, "ServiceKind"), port: int(port), fromWildcard: fw}
+		var hosts []string
+		if hs, ok := r["Hosts"].([]interface{}); ok {
+			for _, h := range hs {
+				hosts = append(hosts, fmt.Sprint(h))
+			}
+		}
+		g.attrs = verifC07GWAttrs(verifC07Str(r, "Protocol"), hosts, verifC07Str(r, "CAFile"), verifC07Str(r, "CertFile"), verifC07Str(r, "KeyFile"), verifC07Str(r, "SNI"))
 		v.gw = append(v.gw, g)
 		v.gwIDs[g.id()] = g
 	}
